@@ -124,8 +124,26 @@ EXTRA = [
     a = a + 100
   return a
 '''),
+    ('x:global_write_only_in_loop', '''def f(x, n, b, xs):
+  global G
+  for i in range(n):
+    G = i + x
+  if b:
+    G = 5
+  return 0
+'''),
+    ('x:nonlocal_reader_called_after_loop', '''def f(x, n, b, xs):
+  a = 0
+  for e in xs:
+    a = e + 3
+  def h(p):
+    nonlocal a
+    return a + p
+  a = h(x)
+  return a
+'''),
 ]
-EXTRA_GLOBS = {'x:global_and_list_arg': {'G': 0}}
+EXTRA_GLOBS = {'x:global_and_list_arg': {'G': 0}, 'x:global_write_only_in_loop': {'G': 0}}
 
 # Witness programs of the listed known findings (known_findings.json): each is
 # run with exactly the mode that exhibits the finding, so the KNOWN-FINDING line
@@ -203,6 +221,9 @@ def programs(tier, seed):
     progs += gen.random_programs(500, seed) + gen.random_programs(150, seed + 1, max_depth=4, max_stmts=7)
   progs += [gen.Prog(n, s, {'extra'}, EXTRA_GLOBS.get(n)) for n, s in EXTRA]
   progs += [gen.Prog(n, s, {'witness'}) for n, _, s in WITNESS]
+  import os
+  if os.environ.get('VF_ONLY'):
+    progs = [p for p in progs if p.name.startswith(os.environ['VF_ONLY'])]
   return progs
 
 
